@@ -24,7 +24,7 @@ sampler, when it has the linear-scan shape (one forward scan over the weights, s
 by +-w, one comparison), is interpreted abstractly over linear forms in {u, S, w}: it must continue past
 weight j exactly while u lies beyond the j-th cumulative bound and return the number of weights
 passed (reversed comparison, off-by-one, reverse scan, wrong counter are violations; any other shape
-is reported not-proved, never an alarm). Not decided: rand_distr's alias method; open/closed interval ends.
+is reported not-proved, never an alarm). A chance node declared without an infoset gets a key of its own in compact::OptBuilder (the value of a counter advanced by the same step), so independent anonymous chance nodes are never merged. Not decided: rand_distr's alias method; open/closed interval ends.
 """
 ASSUMPTIONS = ['rand_distr::WeightedAliasIndex samples proportionally to its weights (third-party contract)',
                'rand::thread_rng is the only entropy source linked (getrandom is reached only through it)']
@@ -101,3 +101,39 @@ def run(ctx):
     sampling.index_provenance(ctx, 'C10')
     sampling.distributions(ctx, 'C10')
     invcdf.sampler_form(ctx, 'C10')
+    anonymous_chance_unique(ctx)
+
+
+def anonymous_chance_unique(ctx):
+    """chance nodes declared without an infoset are independent: OptBuilder::entry(None) files each of them under a key
+    of its own (the value of a counter of the builder that the same step advances), never under something computed
+    from the node's content"""
+    import facts
+    import q
+    from facts import strip_refs
+    rule = 'C10.anonymous-chance-unique'
+    lib = ctx.lib
+    f = lib.one('compact::OptBuilder::<K, V>::entry')
+    if f is None:
+        ctx.anchor_lost(rule, 'compact::OptBuilder::entry')
+        return
+    ctx.touch(f)
+    sites = q.calls_named(f, 'ok_or_else') + q.calls_named(f, 'unwrap_or_else') + q.calls_named(f, 'map_or_else')
+    if not sites:
+        ctx.anchor_lost(rule, 'OptBuilder::entry: the key made up for an entry without a name', 'no ok_or_else / unwrap_or_else on the optional key')
+        return
+    for bi, t, e in sites[:1]:
+        cf, _ = q.closure_of(lib, e[2][-1] if short(e[1]) != 'map_or_else' else e[2][1])
+        if cf is None:
+            ctx.anchor_lost(rule, 'OptBuilder::entry: closure producing the key of a nameless entry')
+            continue
+        ctx.touch(cf)
+        r = strip_refs(q.ret_expr(cf))
+        # the counter: a captured place of the builder that this closure increments
+        incs = [strip_refs(pl) for bj, st, pl, rhs in q.stores(cf)
+                if strip_refs(rhs)[0] == 'bin' and strip_refs(rhs)[1] in ('Add', 'AddWithOverflow') and strip_refs(strip_refs(rhs)[2]) == strip_refs(pl) and facts.is_const(strip_refs(rhs)[3], 1)]
+        from_counter = bool(incs) and any(r == c_ or q.find_sub(r, lambda x, c_=c_: strip_refs(x) == c_) is not None for c_ in incs)
+        uses_other = [x for x in facts.walk(r) if x[0] == 'upvar' and not any(q.find_sub(c_, lambda y, x=x: y == x) is not None for c_ in incs)]
+        ctx.verdict(from_counter and not uses_other, rule, rule, 'an entry without a name gets a key no other entry has: the value of the builder\'s counter, advanced by the same step', cf.where(0),
+                    'key = %s; counter incremented in the same closure: %s; other captured inputs of the key: %s' % (facts.show(r)[:50], bool(incs), [facts.show(x) for x in uses_other] or 'none'),
+                    breaks='independent anonymous chance nodes that look alike are merged into one chance infoset: the sampled methods draw once for all of them')
